@@ -258,6 +258,8 @@ def generate(tier, seed):
         for how in ("named", "recursive"):
             cases.append({"kind": "batch", "n": n, "how": how})
     cases.append({"kind": "names", "k": 0})
+    for how in ("dep5-is-a-directory", "toml-eacces", "toml-vanishes", "nested-toml-eacces", "dep5-eacces"):
+        cases.append({"kind": "config-io", "how": how})
     for j in range(len(NOT_UTF8_SPOTS)):
         for where in ("REUSE.toml", "sub/REUSE.toml", "dep5"):
             cases.append({"kind": "not-utf8", "j": j, "where": where})
@@ -401,6 +403,52 @@ def run_case(case, ctx):
                 judge(res, run_command(cmd, root), "broken", fault, cmd, names=names, detail=data.decode("utf-8", "replace")[:300])
                 res.sigs.add(short_hash(fault, cmd))
             res.cell("not-utf8")
+        elif kind == "config-io":
+            # the configuration file is there but cannot be read (I/O fault at load time): a configuration error like any other
+            how = case["how"]
+            hook, on_open, names = {}, None, ("REUSE.toml",)
+            if how == "dep5-is-a-directory":
+                (root / ".reuse" / "dep5").mkdir(parents=True)
+                names = ("dep5",)
+            elif how == "toml-is-a-directory":
+                (root / "REUSE.toml").mkdir()
+            elif how == "dep5-eacces":
+                (root / ".reuse").mkdir()
+                (root / ".reuse" / "dep5").write_text(VALID_DEP5)
+                hook[str(root / ".reuse" / "dep5")] = eacces
+                names = ("dep5",)
+            else:
+                target = root / ("sub/REUSE.toml" if how.startswith("nested") else "REUSE.toml")
+                target.write_text(VALID_TOML if not how.startswith("nested") else 'version = 1\n[[annotations]]\npath = "*.py"\nSPDX-License-Identifier = "MIT"\n')
+                names = (os.path.relpath(target, root),)
+                if how.endswith("eacces"):
+                    hook[str(target)] = eacces
+            for cmd in ("lint", "lint-file", "spdx", "annotate", "download-all", "convert-dep5"):
+                state = {"done": False}
+                if how == "toml-vanishes":
+                    (root / "REUSE.toml").write_text(VALID_TOML)
+                    tpath = str(root / "REUSE.toml")
+
+                    def cb(path, is_write, tpath=tpath, state=state):
+                        if path == tpath and not state["done"] and not is_write:
+                            state["done"] = True
+                            try:
+                                os.unlink(tpath)
+                            except OSError:
+                                pass
+                    FS.on_open = cb
+                FS.fail_open = dict(hook)
+                FS.begin()
+                try:
+                    r = run_command(cmd, root)
+                finally:
+                    FS.end()
+                    FS.on_open = None
+                    FS.fail_open = {}
+                allowed = (2,) if not (cmd == "convert-dep5" and "toml" in how and how != "toml-is-a-directory") else (0, 1, 2)
+                judge(res, r, "broken" if allowed == (2,) else "grey", f"config-io:{how}", cmd, names=names, allowed=allowed)
+                res.sigs.add(short_hash("config-io", how, cmd))
+            res.cell("config-io:" + how)
         elif kind == "names":
             # file *names* that are not UTF-8 (Latin-1 bytes from an old archive), ignored by Git
             k = case["k"]
